@@ -685,6 +685,76 @@ theorem c13_linetree_drift_bounds (sqrtF fabsF : K → K) (dt : K) (P : Nat → 
   · rw [mul_pow, sq_abs, b2]
     exact mul_le_mul_of_nonneg_left hv (sq_nonneg dt)
 
+/-- **completeness of the LINETREE search relative to the LINE test, with the pruning bound as a
+    function of the step actually done**: `dt` below is the one `dt_last_done` that enters both the
+    leaf test (`lineHit dt`) and the drift terms `|dt|·√(v²)`, `|dt|·√(vmax2)` of the pruning radius
+    (a search that built the drift terms from another step length is a different function and
+    fails the tie).  With `max_radius1` as left by `reb_collision_update_max_radius`, ghost boxes
+    without velocity offset, and libm's `sqrt`/`fabs` behaving as such on the values concerned:
+    every pair `i ≠ j` whose straight-line paths came within `r_i + r_j` during the step (seen from
+    both ends through mirrored ghost boxes, deeper than `ε·W`) and whose particles are in
+    well-formed trees of the forest is found by the LINETREE search from at least one end. -/
+theorem c13_linetree_search_complete (sqrtF fabsF : K → K) (k ε W old0 old1 dt : K)
+    (hk : 0 ≤ k) (hε : 0 ≤ ε) (hkε : 3 ≤ 4 * (k + ε)^2) (hdt : dt ≠ 0)
+    (hfabs : fabsF dt = |dt|) (hsqrt : ∀ x, 0 ≤ x → 0 ≤ sqrtF x ∧ sqrtF x ^ 2 = x)
+    (ring : List (GB K)) (P : Nat → Part K) (n : Nat) (roots : List (RV.Tree.T K)) (tie : Bool)
+    (hr : ∀ q, 0 ≤ (P q).r)
+    (i j : Nat) (hi : i < n) (hj : j < n) (hij : i ≠ j)
+    (gb gb' : GB K) (hgb : gb ∈ ring) (hgb' : gb' ∈ ring)
+    (hv : gb.vx = 0 ∧ gb.vy = 0 ∧ gb.vz = 0) (hv' : gb'.vx = 0 ∧ gb'.vy = 0 ∧ gb'.vz = 0)
+    (hit1 : lineHit dt (shiftGB gb (P i)) (P i).r (P j) = true)
+    (hit2 : lineHit dt (shiftGB gb' (P j)) (P j).r (P i) = true)
+    (hm : 0 ≤ (P i).r + (P j).r - ε*W)
+    (hov1 : lineRmin2 dt (shiftGB gb (P i)) (P j) < ((P i).r + (P j).r - ε*W)^2)
+    (hov2 : lineRmin2 dt (shiftGB gb' (P j)) (P i) < ((P j).r + (P i).r - ε*W)^2)
+    (tj ti : RV.Tree.T K) (cj ci : RV.Tree.Cell K) (htj : tj ∈ roots) (hti : ti ∈ roots)
+    (hwfj : RV.C15.WF (psT P) tie cj tj) (hwfi : RV.C15.WF (psT P) tie ci ti)
+    (hcj : 0 ≤ cj.w ∧ cj.w ≤ W) (hci : 0 ≤ ci.w ∧ ci.w ≤ W)
+    (hjl : j ∈ RV.Tree.leaves tj) (hil : i ∈ RV.Tree.leaves ti) :
+    let m1 := (updateMaxRadius old0 old1 ((List.range n).map fun q => (P q).r)).2
+    (⟨(i : Int), (j : Int), gb⟩ : Coll (GB K)) ∈ lineTreeSearch sqrtF fabsF k m1 dt ring P n roots ∨
+    (⟨(j : Int), (i : Int), gb'⟩ : Coll (GB K)) ∈ lineTreeSearch sqrtF fabsF k m1 dt ring P n roots := by
+  intro m1
+  obtain ⟨_, _, _, hpair⟩ := c13_max_radius_bound old0 old1 ((List.range n).map fun q => (P q).r)
+  have hlen : ((List.range n).map fun q => (P q).r).length = n := by simp
+  have hH : (P i).r ≤ m1 ∨ (P j).r ≤ m1 := by
+    rcases Nat.lt_or_gt_of_ne hij with h | h
+    · have := hpair i j h (by rw [hlen]; exact hj)
+      simpa using this
+    · have := hpair j i h (by rw [hlen]; exact hi)
+      simpa using this.symm
+  -- the drift terms of the search, in the form the model computes them
+  have key : ∀ (a b : Nat) (g0 : GB K), a < n → b < n → g0.vx = 0 ∧ g0.vy = 0 ∧ g0.vz = 0 →
+      (0 ≤ fabsF dt * sqrtF ((P a).vx*(P a).vx + (P a).vy*(P a).vy + (P a).vz*(P a).vz) ∧
+        dt^2 * ((shiftGB g0 (P a)).vx^2 + (shiftGB g0 (P a)).vy^2 + (shiftGB g0 (P a)).vz^2) ≤
+          (fabsF dt * sqrtF ((P a).vx*(P a).vx + (P a).vy*(P a).vy + (P a).vz*(P a).vz))^2) ∧
+      (0 ≤ fabsF dt * sqrtF (vmax2 P n) ∧
+        dt^2 * ((P b).vx^2 + (P b).vy^2 + (P b).vz^2) ≤ (fabsF dt * sqrtF (vmax2 P n))^2) := by
+    intro a b g0 ha hb hg0
+    obtain ⟨d1, d2⟩ := c13_linetree_drift_bounds sqrtF fabsF dt P n a b hb hfabs hsqrt
+    have e : (P a).vx*(P a).vx + (P a).vy*(P a).vy + (P a).vz*(P a).vz
+        = (P a).vx^2 + (P a).vy^2 + (P a).vz^2 := by ring
+    rw [e]
+    refine ⟨⟨d1.1, ?_⟩, d2⟩
+    have : (shiftGB g0 (P a)).vx = (P a).vx ∧ (shiftGB g0 (P a)).vy = (P a).vy ∧
+        (shiftGB g0 (P a)).vz = (P a).vz := by
+      simp [shiftGB, hg0.1, hg0.2.1, hg0.2.2]
+    rw [this.1, this.2.1, this.2.2]
+    exact d1.2
+  unfold lineTreeSearch
+  simp only [List.mem_flatMap, List.mem_range, sc_hadd, sc_hmul]
+  rcases hH with hH | hH
+  · right
+    obtain ⟨kD1, kD2⟩ := key j i gb' hj hi hv'
+    refine ⟨j, hj, gb', hgb', ti, hti, ?_⟩
+    exact mem_lineTreeWalk k ε m1 W dt _ _ hk hε hkε hdt P tie gb' _ j i (P j).r (hr j) hH hij kD1 kD2 hit2
+      (by linarith) hov2 ti ci hwfi hci.1 hci.2 hil
+  · left
+    obtain ⟨kD1, kD2⟩ := key i j gb hi hj hv
+    refine ⟨i, hi, gb, hgb, tj, htj, ?_⟩
+    exact mem_lineTreeWalk k ε m1 W dt _ _ hk hε hkε hdt P tie gb _ i j (P i).r (hr i) hH (Ne.symm hij) kD1 kD2 hit1
+      hm hov1 tj cj hwfj hcj.1 hcj.2 hjl
+
 end prune
 
 /-! ## 6. hypotheses are satisfiable -/
